@@ -48,7 +48,7 @@ def probes():
     return ["sync_ok", "class_target_rewritten", "target_appended_to_existing_file", "empty_file_filled",
             "missing_file_created", "second_sync_noop_checked", "truth_class", "truth_function", "truth_argparse",
             "fault_fired", "crash_fired", "recovery_delete", "recovery_empty", "recovery_restore", "convergence_checked",
-            "user_edit", "restart", "method_target", "black_absent"]
+            "user_edit", "restart", "method_target", "black_absent", "decoy_same_name_nested"]
 
 
 # ------------------------------------------------------------------------------------ generators
@@ -66,7 +66,10 @@ def project(draw):
             "class_name": draw(st.sampled_from(("Config", "Settings", "Options"))),
             "func_name": draw(st.sampled_from(("compute", "build", "run_job"))),
             "first_truth": truth_first, "extras": draw(st.booleans()),
-            "no_trailing_newline": draw(st.integers(0, 7)) == 7}
+            "no_trailing_newline": draw(st.integers(0, 7)) == 7,
+            # a surrounding definition that *contains* something named like the target (nested class / method of
+            # another class): unrelated code by the statement, a trap for name-only lookups
+            "decoy": draw(st.integers(0, 3)) == 3}
 
 
 @st.composite
@@ -129,6 +132,14 @@ def render_file(p, kind, spec, state):
     parts = [head]
     if p["extras"]:
         parts.append(HELPER + "\n\n")
+    if p.get("decoy"):
+        leaf = target_name(p, kind).split(".")[-1]
+        if kind == "class":
+            parts.append('class Registry(object):\n    """Registry with an inner class of the same name."""\n\n'
+                         '    class %s(object):\n        """Inner."""\n\n        frozen: bool = True\n\n\n' % leaf)
+        else:
+            parts.append('class Registry(object):\n    """Registry with a method of the same name."""\n\n'
+                         '    def %s(self, thing=LIMIT):\n        """Inner."""\n        print(thing)\n\n\n' % leaf)
     if state == "present":
         parts.append(render_target(p, kind, spec))
     elif kind == "function" and p["method"]:
@@ -302,6 +313,8 @@ def simulate(plan):
         bump(probe, "black_absent")
     if p["method"]:
         bump(probe, "method_target")
+    if p.get("decoy"):
+        bump(probe, "decoy_same_name_nested")
     world = SimWorld(tag="c12")
     files = {}
     for k in KINDS:
